@@ -64,7 +64,7 @@ def inst_kernels(cost, trace=False, warn=False, lines="AllLines", kernels="Kerne
 def plan(pid, tier):
     q = tier == "quick"
     P = {
-        "C01": dict(mc=[inst_c01(5 if q else 7)], drivers=[("fuzz", 400 if q else 30000, [])]),
+        "C01": dict(mc=[inst_c01(5 if q else 7)], drivers=[("boundary", 1, []), ("fuzz", 300 if q else 30000, [])]),
         "C03": dict(mc=[inst_kernels(1, lines="RunOnly")], drivers=[("progs", 80 if q else 4000, [])]),
         "C04": dict(mc=[inst_c04(4 if q else 5)], drivers=[]),
         "C07": dict(mc=[inst_kernels(3 if q else 4, lines="BreakLines")], drivers=[("breakcont", 60 if q else 3000, []), ("stopassign", 120 if q else 4000, [])]),
@@ -74,7 +74,7 @@ def plan(pid, tier):
         "C10": dict(mc=[inst_c01(5 if q else 6)], drivers=[("runfresh", 120 if q else 6000, [])]),
         "C11": dict(mc=[inst_kernels(3 if q else 4, lines="EditLines")], drivers=[("editprobe", 150 if q else 6000, [])]),
         "C16": dict(mc=[inst_kernels(1, lines="RunOnly", kernels="CapKernels"), inst_c01(4 if q else 6)],
-                    drivers=[("fuzz", 300 if q else 20000, []), ("progs", 40 if q else 1500, [])]),
+                    drivers=[("boundary", 1, []), ("fuzz", 200 if q else 20000, []), ("progs", 40 if q else 1500, [])]),
         "C17": dict(mc=[inst_kernels(2 if q else 3, trace=True, warn=True, lines="BreakLines")], drivers=[("flags4", 40 if q else 2000, [])]),
     }
     return P[pid]
@@ -140,12 +140,15 @@ def run(pid, tier, seed):
 
     # ---------------- validate direction
     for (driver, n, flags) in pl["drivers"]:
-        shards = 2 if n <= 60 else (8 if n <= 400 else 14)
+        shards = 12 if driver == "boundary" else (2 if n <= 60 else (8 if n <= 400 else 14))
         cmds, reports = [], []
         for k in range(shards):
             tr = os.path.join(wd, f"{driver}_{k}.ndjson")
             rp = os.path.join(wd, f"{driver}_{k}.report.json")
-            cmds.append((["sess-record", driver, str(seed * 100 + k), str(max(1, n // shards)), tr, rp, *flags], tr))
+            if driver == "boundary":       # a fixed catalogue, split over the shards
+                cmds.append((["sess-record", driver, str(k), str(shards), tr, rp], tr))
+            else:
+                cmds.append((["sess-record", driver, str(seed * 100 + k), str(max(1, n // shards)), tr, rp, *flags], tr))
             reports.append(rp)
         results = c.validate_traces("Trace_Session", cmds, wd, f"trace_{driver}", timeout=5400)
         d = {"driver": driver, "flags": flags, "runs": n, "events": 0, "judged": 0, "verdicts": {}}
